@@ -162,9 +162,29 @@ pub fn generate(rng: &mut Rng, max_cmds: usize) -> Mega {
         uniq += 1;
         match rng.below(100) {
             0..=19 => {
-                // text query with a random response program; unique text
-                let text = format!("q{} {}", uniq, String::from_utf8_lossy(&rng.ascii(6)));
-                let (prog, exp) = program(rng, false, None);
+                // text query with a random response program; unique text (now and then 0.6-2 MB long,
+                // which grows the server's read buffer past a megabyte in the middle of a history)
+                let mut text = format!("q{} {}", uniq, String::from_utf8_lossy(&rng.ascii(6)));
+                if rng.chance(1, 60) {
+                    let mut filler = Vec::new();
+                    let fl = rng.range(600_000, 2_000_000) as usize;
+                    stream_fill(&mut filler, rng.next(), uniq, fl, true);
+                    text.push_str(std::str::from_utf8(&filler).unwrap());
+                }
+                let (mut prog, mut exp) = program(rng, false, None);
+                if rng.chance(1, 25) {
+                    // a reply whose packet count lies around a multiple of 256
+                    let rows = *rng.pick(&[250usize, 251, 252, 253, 506, 507, 508, 509]) + rng.below(3) as usize;
+                    let cols = rcols(rng, 1, false);
+                    let cells = |r: usize| -> Vec<Cell> { vec![if cols[0].coltype == ColumnType::MYSQL_TYPE_LONG { Cell::val(V::I32(r as i32)) } else { Cell::val(V::Str(format!("r{}", r))) }] };
+                    let mut ops = vec![QOp::Start(0)];
+                    for r in 0..rows {
+                        ops.push(QOp::Row(cells(r), RowForm::Owned));
+                    }
+                    ops.push(QOp::Finish);
+                    prog = QProg { colsets: vec![cols.clone()], ops, on_err: OnErr::Drop };
+                    exp = vec![ExpPart::Rows { cols, nrows: rows, err: None }];
+                }
                 conv.push(MCmd::Query(text.into_bytes()), Some(Script::Q(prog)));
                 exps.push(Some(ExpResp::Parts(exp)));
                 desc.push('Q');
@@ -306,6 +326,12 @@ pub fn generate(rng: &mut Rng, max_cmds: usize) -> Mega {
         1 => case.arrival = Arrival::Pipelined(rng.range(2, 4) as usize),
         2 => {}
         k => case.sched = make_sched(rng, SCHED_KINDS[(k as usize) % 7], &input),
+    }
+    if input.len() > 100_000 {
+        // the real parser zero-fills its (doubling) buffer before every read, so tiny reads over
+        // megabytes cost terabytes of memset: a cost bound of the harness, not of any property
+        case.sched = crate::transport::Sched { cuts: case.sched.cuts.iter().copied().filter(|c| c % 7 == 0).take(40).collect(), cycle: vec![rng.range(65_536, 1 << 20) as usize] };
+        case.log_reads = true;
     }
     if rng.chance(1, 4) {
         case.write_limit = *rng.pick(&[1usize, 7, 64, 1000]);
